@@ -20,7 +20,7 @@ from vf.api import Generated, HarnessError, Violation
 PROPERTY = "C11"
 LEVEL = "exploration"
 RULE = (
-    "case = (engine label_length None|6-30, shape join|sub|cte|union|text_pos|text_name|text_plain, 1-3 FROM elements over 3 tables with colliding "
+    "case = (engine label_length None|6-30, shape join|sub|cte|union|text_pos|text_name|text_loose|text_plain, 1-3 FROM elements over 3 tables with colliding "
     "column names (named / anonymous aliases, self-joins; element k is joined with id offset k so every element yields different values), 1-6 "
     "select-list expressions of kind col|label|add|addlabel|neg|func|funclabel|lit|litlabel|bind with label names drawn from a colliding pool, label "
     "style none|tpc|dis, optional second execution of an identically rebuilt statement (compiled-cache path)). Non-trivial: >=2 selected expressions "
@@ -526,6 +526,56 @@ def _shape_text(world, case, classes, info):
             res = world.conn.execute(ts)
             _verify(res, sc + [None] * (n - len(sc)), [{d} for d in dnames], expected, case, classes, info, where="[selected_columns] ", soft=soft)
         return
+    if shape == "text_loose":
+        # Table columns given without positions (a keyword column switches text().columns() to name matching):
+        # one context column per SQL column, so a name repeated in the SQL must make its columns ambiguous
+        sql2 = sql.replace(" FROM ", ", 424242 AS zz_last FROM ", 1)
+        objs = []
+        for sp in case["cols"]:
+            ei = sp["e"] % len(resolved)
+            k = resolved[ei][0]
+            objs.append(world.tables[k].c[TDEFS[k][1][sp["c"] % 4]])
+        uniq_objs = list(dict.fromkeys(objs))
+        if len(uniq_objs) != len(objs):
+            raise _Skip("same table column twice in a textual column list")
+        ts = text(sql2).columns(*objs, zz_last=Integer)
+        res = world.conn.execute(ts)
+        keys = list(res.keys())
+        rows = res.all()
+        got = [tuple(r)[:-1] for r in rows]
+        if got != expected or keys != dnames + ["zz_last"]:
+            raise Violation("C11/positional/values", f"text_loose: rows {got!r} / keys {keys!r} differ from {expected!r} / {dnames!r}")
+        if len(set(dnames)) < len(dnames):
+            info["nontrivial"] = True
+            classes.add("keys-repeated")
+        for row, exp in zip(rows, got):
+            for i, o in enumerate(objs):
+                exact = [p for p, d in enumerate(dnames) if d == o.name]
+                pos = exact + [p for p, d in enumerate(dnames) if d == f"{o.table.name}_{o.name}" and p not in exact]
+                r = _lookup(row, o)
+                if len(exact) >= 2:
+                    if r[0] != "ambiguous":
+                        raise Violation("C11/text-loose/ambiguous-column-answered", f"text(..).columns({o!s}, .., zz_last=Integer): row._mapping[{o!s}] gave {r!r} although the SQL returns the name {o.name!r} at positions {exact} (names {dnames!r}, row {exp!r})", observed=repr(r), expected="InvalidRequestError: Ambiguous column name")
+                    classes.add("text-loose-ambiguous")
+                elif pos:
+                    if r[0] == "val" and r[1] not in [exp[p] for p in pos]:
+                        raise Violation("C11/text-loose/wrong-value", f"row._mapping[{o!s}] = {r[1]!r}, SQL columns of a matching name are positions {pos} (names {dnames!r}, row {exp!r})", observed=repr(r[1]), expected=repr([exp[p] for p in pos]))
+                    if r[0] != "val" and len(pos) == 1:
+                        others = [o2 for o2 in objs if o2 is not o and dnames[pos[0]] in (o2.name, f"{o2.table.name}_{o2.name}")]
+                        if not others:
+                            raise Violation(f"C11/text-loose/{r[0]}", f"row._mapping[{o!s}] raised {r[0]} although exactly one SQL column (position {pos[0]}) and no other given column matches its name (names {dnames!r})", observed=r[0], expected=repr(exp[pos[0]]))
+                    classes.add("text-loose-matched")
+                else:
+                    if r[0] == "val":
+                        raise Violation("C11/text-loose/unmatched-answered", f"row._mapping[{o!s}] = {r[1]!r} although no SQL column carries its name (names {dnames!r})", observed=repr(r[1]))
+            for d in set(dnames):
+                pos = [p for p, x in enumerate(dnames) if x == d]
+                r = _lookup(row, d)
+                if len(pos) == 1 and r[0] == "val" and r[1] != exp[pos[0]]:
+                    raise Violation("C11/text-loose/string-key-wrong-value", f"row._mapping[{d!r}] = {r[1]!r}, expected {exp[pos[0]]!r} (names {dnames!r}, row {exp!r})")
+                if len(pos) > 1 and r[0] == "val" and r[1] not in [exp[p] for p in pos]:
+                    raise Violation("C11/text-loose/string-key-wrong-column", f"row._mapping[{d!r}] = {r[1]!r}, not among positions {pos} (row {exp!r})")
+        return
     # text_name: keyword form, matched by name
     uniq = list(dict.fromkeys(dnames))
     take = [d for i, d in enumerate(uniq) if case["textcols"][i % len(case["textcols"])]["how"] != "skip"] or uniq[:1]
@@ -606,7 +656,7 @@ _textcol = st.fixed_dictionaries({"how": st.sampled_from(["table", "fresh", "fre
 
 @st.composite
 def _cases(draw):
-    shape = draw(st.sampled_from(["join", "join", "join", "sub", "cte", "union", "text_pos", "text_name", "text_plain"]))
+    shape = draw(st.sampled_from(["join", "join", "join", "sub", "cte", "union", "text_pos", "text_name", "text_plain", "text_loose"]))
     case = {
         "shape": shape,
         "label_length": draw(st.sampled_from([None, None, 6, 7, 8, 10, 12, 16, 20, 24, 30])),
@@ -630,5 +680,5 @@ def _cases(draw):
 
 def subs(tier):
     return [
-        Generated("selects", check_select, strategy=_cases(), quick=1500, thorough=100000),
+        Generated("selects", check_select, strategy=_cases(), quick=10000, thorough=100000),
     ]
